@@ -31,8 +31,8 @@ func init() {
 		return &Check{ID: "C14",
 			Runs: []Run{
 				{S: withAnnotate(unionScenario(unionOpts{name: "union-halt", extreme: true}), annotateHalt), Opt: map[Tier]Options{
-					Quick:    {Depth: 4, Budget: 150 * time.Second, ReplayEvery: 16},
-					Thorough: {Depth: 6, Budget: 25 * time.Minute, ReplayEvery: 32, MaxStates: 500000},
+					Quick:    {Depth: 3, Budget: 150 * time.Second, ReplayEvery: 16},
+					Thorough: {Depth: 5, Budget: 25 * time.Minute, ReplayEvery: 32, MaxStates: 400000},
 				}},
 				{S: withAnnotate(unionScenario(unionOpts{name: "union-atomic", multi: true}), annotateHalt), Opt: map[Tier]Options{
 					Quick:    {Depth: 3, Budget: 100 * time.Second, ReplayEvery: 16},
